@@ -160,7 +160,13 @@ class SpecificationBase:
         """Is the interface implemented by an object
         """
         spec = providedBy(ob)
-        return self in spec._implied
+        try:
+            implied = spec._implied
+        except AttributeError:
+            # Not one of our specifications (probably a security proxy
+            # around one): ask it, like the C implementation does.
+            return spec(self)
+        return self in implied
 
     def implementedBy(self, cls):
         """Test whether the specification is implemented by a class or factory.
@@ -168,7 +174,12 @@ class SpecificationBase:
         Raise TypeError if argument is neither a class nor a callable.
         """
         spec = implementedBy(cls)
-        return self in spec._implied
+        try:
+            implied = spec._implied
+        except AttributeError:
+            # See providedBy.
+            return spec(self)
+        return self in implied
 
     def isOrExtends(self, interface):
         """Is the interface the same as or extend the given interface
